@@ -7,6 +7,10 @@
 #include "stubs/log_stub.c"
 
 void orc_opcode_sys_init (void) { }
+/* ghost global lock (the registries are not locked today; present so that code which starts to lock stays analysable) */
+int g_lock;
+void orc_global_mutex_lock (void) { __CPROVER_assert(g_lock == 0, "global mutex not already held"); g_lock = 1; }
+void orc_global_mutex_unlock (void) { __CPROVER_assert(g_lock == 1, "unlock of a held global mutex"); g_lock = 0; }
 /* assumed libc model: writes at most n bytes, NUL-pads (the only use copies an 8-byte prefix) */
 char *strncpy (char *d, const char *s, size_t n) {
   __CPROVER_assert(__CPROVER_w_ok(d, n) && __CPROVER_r_ok(s, 1), "strncpy arguments");
@@ -230,3 +234,47 @@ __CPROVER_ensures(__CPROVER_return_value == NULL || __CPROVER_return_value->exec
 __CPROVER_ensures(g_env == NULL ==> __CPROVER_return_value == default_target)
 __CPROVER_ensures(g_env == NULL || __CPROVER_was_freed(g_env));
 void h_target_get_default(void) { mk_targets(); orc_target_get_default(); REACH(); }
+
+/* ================================================================ C20/C17: rule lookup is a pure function of the registries and the flags */
+#ifndef NRS
+#define NRS 3
+#endif
+static OrcRule g_rules[NRS][NOPS];
+void stub_emit (OrcCompiler *p, void *user, OrcInstruction *insn) { }
+static OrcRule *spec_get_rule (OrcTarget *target, OrcStaticOpcode *opcode, unsigned int flags, int set_index, int op_index) {
+  /* highest-numbered rule set of the opcode's set whose required flags are all present and whose slot is filled */
+  for (int i = NRS - 1; i >= 0; i--) {
+    if (i >= target->n_rule_sets) continue;
+    if (target->rule_sets[i].opcode_major != set_index) continue;
+    if (target->rule_sets[i].required_target_flags & ~flags) continue;
+    if (target->rule_sets[i].rules[op_index].emit) return &target->rule_sets[i].rules[op_index];
+  }
+  return NULL;
+}
+int g_set_index, g_op_index;   /* ghost: where the opcode sits (set, position of the first entry with its name) */
+OrcRule *g_expected_rule;
+OrcRule * orc_target_get_rule (OrcTarget *target, OrcStaticOpcode *opcode, unsigned int target_flags)
+__CPROVER_requires(__CPROVER_r_ok(target, sizeof(*target)) && target->n_rule_sets >= 0 && target->n_rule_sets <= NRS)
+__CPROVER_requires(n_opcode_sets >= 1 && n_opcode_sets <= NSETS && g_set_index >= 0 && g_set_index < n_opcode_sets && g_op_index >= 0 && g_op_index < opcode_sets[g_set_index].n_opcodes)
+__CPROVER_requires(opcode == &g_tab[g_set_index][g_op_index] && spec_find(&opcode_sets[g_set_index], opcode->name) == g_op_index)
+__CPROVER_requires(g_expected_rule == spec_get_rule(target, opcode, target_flags, g_set_index, g_op_index))
+/* no hidden state: nothing at all is written */
+__CPROVER_assigns()
+__CPROVER_ensures(__CPROVER_return_value == g_expected_rule);
+void h_target_get_rule(void) {
+  mk_sets(); __CPROVER_assume(n_opcode_sets >= 1);
+  OrcTarget *t = mk_target();
+  __CPROVER_assume(t->n_rule_sets >= 0 && t->n_rule_sets <= NRS);
+  for (int i = 0; i < NRS; i++) {
+    t->rule_sets[i].rules = g_rules[i];
+    for (int j = 0; j < NOPS; j++) g_rules[i][j].emit = nondet_bool() ? NULL : stub_emit;
+    __CPROVER_assume(t->rule_sets[i].opcode_major >= 0 && t->rule_sets[i].opcode_major < NSETS);
+  }
+  g_set_index = nondet_int(); g_op_index = nondet_int();
+  __CPROVER_assume(g_set_index >= 0 && g_set_index < n_opcode_sets && g_op_index >= 0 && g_op_index < opcode_sets[g_set_index].n_opcodes);
+  OrcStaticOpcode *op = &g_tab[g_set_index][g_op_index];
+  unsigned flags = nondet_uint();
+  g_expected_rule = spec_get_rule(t, op, flags, g_set_index, g_op_index);
+  orc_target_get_rule(t, op, flags);
+  REACH();
+}
